@@ -99,8 +99,19 @@ def _program(draw):
         f = draw(st.sampled_from([x for x in funcs + ["END"] if x != t]))
         g = {"k": "ifelse", "name": f"g{gi}", "params": params, "defaults": {}, "t": t, "f": f, "table": draw(st.lists(st.booleans(), min_size=1, max_size=3)),
              "default_open": draw(st.booleans()), "cache": prob(draw, 0.7)}
+        if prob(draw, 0.35):
+            # a multi-way gate: single decisions, None, END, or (multi_target) LISTS of targets - all of which a cache hit must restore
+            targets = list(dict.fromkeys([t] + ([f] if f != "END" else []) + draw(st.lists(st.sampled_from(funcs), max_size=1)))) + (["END"] if draw(st.booleans()) else [])
+            multi = draw(st.booleans())
+            if multi:
+                table = [[x for x in targets if x != "END" and prob(draw, 0.6)] for _ in range(draw(st.integers(1, 3)))]
+            else:
+                table = draw(st.lists(st.sampled_from(targets + [None]), min_size=1, max_size=3))
+            g = {"k": "route", "name": f"g{gi}", "params": params, "defaults": {}, "targets": targets, "multi": multi, "fallback": None, "table": table,
+                 "default_open": g["default_open"], "cache": True}
+            labels.add("cached_route_gate" + ("_multi" if multi else ""))
         gates.append(g)
-    if len(gates) == 2 and prob(draw, 0.6):
+    if len(gates) == 2 and all(x["k"] == "ifelse" for x in gates) and prob(draw, 0.6):
         # second gate shares the first gate's routing function (same params/table), different targets
         g0, g1 = gates
         g1.update({"fid": g0["name"], "params": list(g0["params"]), "table": list(g0["table"]), "cache": True})
@@ -293,6 +304,49 @@ def _alt_nodes(nodes, alt):
     return out
 
 
+def _derived_after_use(case, gspec, nodes, labels):
+    """A cached node that has ALREADY taken part in a cached run is renamed (outputs) and, with its consumers renamed along,
+    run again on the same cache: nothing stored under the old output names may be served, the result equals the uncached run."""
+    from hypergraph import Graph, SyncRunner
+    from hypergraph.cache import InMemoryCache
+
+    cands = [n for n in nodes if n["k"] == "func" and n.get("cache") and n.get("outs") and not n.get("renames")]
+    if not cands:
+        return
+    a = cands[case["fault_variant"] % len(cands)]
+    omap = {o: o + "_d" for o in a["outs"]}
+    ctx = Ctx(compact=True)
+    g1 = make_graph(ctx, gspec, "sync")
+    vals, kw = _values(g1, 0)
+    runner = SyncRunner(cache=InMemoryCache())
+    o1 = run_sync(g1, vals, runner=runner, max_iterations=12, error_handling="continue", **kw)
+    if o1.status == "raised":
+        return
+    try:
+        derived = []
+        for name, nd in g1.nodes.items():
+            if name == a["name"]:
+                nd = nd.with_outputs(dict(omap))
+            elif any(p in omap for p in nd.inputs):
+                nd = nd.with_inputs({p: omap[p] for p in nd.inputs if p in omap})
+            derived.append(nd)
+        g2 = Graph(derived)
+        vals2, kw2 = _values(g2, 0)
+    except Exception:  # noqa: BLE001 - e.g. the renamed name is also a wait_for name: not in this sub-domain
+        return
+    ctx.reset()
+    out_u = run_sync(g2, vals2, max_iterations=12, error_handling="continue", **kw2)
+    calls_u = ctx.count(ref.fid(a))
+    ctx.reset()
+    out_c = run_sync(g2, vals2, runner=runner, max_iterations=12, error_handling="continue", **kw2)
+    labels.add("derived_after_cached_use")
+    if out_u.status != out_c.status or out_u.values != out_c.values:
+        raise Violation("c09.not_transparent", f"[outputs of {a['name']} renamed {omap} AFTER a cached run, same cache] uncached={out_u.brief()} cached={out_c.brief()}", what="derived_after_use")
+    shared_fn = any(ref.fid(m) == ref.fid(a) and m["name"] != a["name"] for m in nodes)
+    if calls_u and not ctx.count(ref.fid(a)) and not shared_fn:
+        raise Violation("c09.served_other_outputs", f"[outputs of {a['name']} renamed {omap} after a cached run] the renamed node was served from the cache although nothing was ever stored under its output names", what="derived_after_use")
+
+
 def _check_lru(case):
     """InMemoryCache against the reference LRU on a drawn get/set sequence."""
     from hypergraph.cache import InMemoryCache
@@ -326,7 +380,8 @@ def _summary(events):
     from hypergraph.events.types import NodeEndEvent, RouteDecisionEvent
 
     ended = sorted(e.node_name for e in events if isinstance(e, NodeEndEvent))
-    decisions = sorted((e.node_name, repr(e.decision)) for e in events if isinstance(e, RouteDecisionEvent))
+    # a decision of None selects nothing; whether an event announces it is not part of "routing"
+    decisions = sorted((e.node_name, repr(e.decision)) for e in events if isinstance(e, RouteDecisionEvent) and e.decision is not None)
     return ended, decisions
 
 
@@ -336,7 +391,8 @@ def _ident(n):
     for st_ in n.get("renames", []):
         if st_.get("kind") == "outputs":
             names = [st_["map"].get(x, x) for x in names]
-    return (ref.fid(n), tuple(names), (n.get("t"), n.get("f")) if n["k"] == "ifelse" else None)
+    tg = (n.get("t"), n.get("f")) if n["k"] == "ifelse" else ((tuple(n["targets"]), n.get("multi"), n.get("fallback")) if n["k"] == "route" else None)
+    return (ref.fid(n), tuple(names), tg)
 
 
 def _positional_args(n, args_by_param):
@@ -452,6 +508,7 @@ def check_case(case, ev):
         model = ref.LRU(size)
         keymap: dict = {}
         _check_lru(case)
+        _derived_after_use(case, gspec, nodes, labels)
         gspec_alt = {"nodes": _alt_nodes(nodes, case["alt"])} if case.get("alt") else None
         if gspec_alt is not None:
             try:
